@@ -69,7 +69,11 @@ HNet(c, whichSpace) ==
 \* has the space its own exterior floor? (not when the element under test is its floor)
 HasFloor(c, whichSpace) == ~(whichSpace = "this" /\ c.tilt = "BOTTOM")
 \* A.U of the exterior elements of a space of the reference building
-UAe(c, whichSpace) == Add(Mul(AreaE, UExt(RRef, "SIDE")),
+\* (glazed cases: the exterior wall of each space carries a window of 2 m2 with U = 3: the wall counts with its net area)
+AreaW == Qt(2, 1)
+UWinRef == Qt(3, 1)
+UAe(c, whichSpace) == Add(IF c.glazed THEN Add(Mul(Sub(AreaE, AreaW), UExt(RRef, "SIDE")), Mul(AreaW, UWinRef))
+                                      ELSE Mul(AreaE, UExt(RRef, "SIDE")),
                           IF HasFloor(c, whichSpace) THEN Mul(AreaP, UExt(RRef, "BOTTOM")) ELSE Qt(0, 1))
 Vol(c, whichSpace) == Mul(AreaP, HNet(c, whichSpace))
 Habitable(k) == k \in {"C", "U"}
